@@ -226,12 +226,17 @@ theorem undoLoop_inv (b : Buf) (h : Inv b) : ∀ st, StackOk st →
     · exact undoLoop_inv b h rest hrest
 
 theorem undo_inv (b : Buf) (h : Inv b) :
-    Inv (undo b).1 ∧ (undo b).2 ≠ .indexError ∧ (undo b).2 ≠ .assertion :=
-  undoLoop_inv b h b.undo h.undo
+    Inv (undo b).1 ∧ (undo b).2 ≠ .indexError ∧ (undo b).2 ≠ .assertion := by
+  unfold undo
+  split
+  · exact ⟨h, by simp, by simp⟩
+  · exact undoLoop_inv b h b.undo h.undo
 
 theorem redo_inv (b : Buf) (h : Inv b) :
     Inv (redo b).1 ∧ (redo b).2 ≠ .indexError ∧ (redo b).2 ≠ .assertion := by
   unfold redo
+  split
+  · exact ⟨h, by simp, by simp⟩
   cases hr : b.redo with
   | nil => exact ⟨h, by simp, by simp⟩
   | cons e rest =>
@@ -557,6 +562,8 @@ theorem soc_undoLoop (b : Buf) (hi : IdxOk b) : ∀ st, SameOrCleared b (undoLoo
 
 theorem soc_redo (b : Buf) (hi : IdxOk b) : SameOrCleared b (redo b).1 := by
   unfold redo
+  split
+  · left; rfl
   cases b.redo with
   | nil => left; rfl
   | cons e rest =>
@@ -745,7 +752,11 @@ theorem step_same_or_cleared (b : Buf) (op : Op) (hi : IdxOk b) (ho : (step b op
     · left; rfl
     · right; simp [Cleared]
   | saveUndo cl => left; simp [step, saveUndo, Buf.text]
-  | undo => exact soc_undoLoop b hi b.undo
+  | undo =>
+    simp only [step, undo]
+    split
+    · left; rfl
+    · exact soc_undoLoop b hi b.undo
   | redo => exact soc_redo b hi
   | startSelection ty => left; simp [step, startSelection, Buf.text]
   | exitSelection => left; simp [step, exitSelection, Buf.text]
